@@ -452,3 +452,6 @@ package cputensor
 //@   ensures[C06] imp(err == nil, forall(a, 0, len(ts), forallJ(J, imp(inb(o, J) && catoff(ts, dim, a) <= J[dim] && J[dim] < catoff(ts, dim, a+1), el(o, J) == el(ts[a], upd(J, dim, J[dim] - catoff(ts, dim, a)))))))
 //@   ensures[C08] imp(err == nil, o.gctx != nil && o.gctx.gradient == nil && dirtyT(o) == exists(k, 0, len(ts), dirtyT(ts[k])) && trkT(o) == (!dirtyT(o) && exists(k, 0, len(ts), trkT(ts[k]))) && edgeInv(o))
 //@   loop 0 invariant len(cusDims) == len(ts) && len(cus) == len(ts) && forall(k, 0, i, len(cusDims[k]) == rank(ts[k]) && forall(m, 0, rank(ts[k]), cusDims[k][m] == dim(ts[k], m)))
+
+// SUM-POS (paper lemma): a fibre sum of a tensor whose elements are all positive is positive
+//@ axiom sumPos: forallT(t, forallI(d, imp(forallJ(K, imp(inb(t, K), el(t, K) > 0)), forallJ(J, fsum(t, d, J) > 0))))
